@@ -78,13 +78,24 @@ pub use zip_writer::ZipWriter;
 pub open spec fn files_ok(files: Seq<ZipFileData>) -> bool {
     forall|i: int| 0 <= i < files.len() ==> (#[trigger] files[i]).last_modified_time.year >= 1980
 }
+pub open spec fn maybe_ok<W: Write + io::Seek>(m: MaybeEncrypted<W>) -> bool { m.g_inv() }
 pub open spec fn zw_wf<W: Write + io::Seek>(w: &ZipWriter<W>) -> bool {
     &&& files_ok(w.files@)
     &&& (w.writing_to_file ==> w.files@.len() > 0)
-    &&& (w.writing_to_extra_field ==> w.writing_to_file && (gzw_plain(w.inner) || w.inner is Closed))
+    &&& (w.writing_to_extra_field ==> w.writing_to_file && !w.writing_raw && (gzw_plain(w.inner) || w.inner is Closed)
+            && w.files@.last().header_start + 30 <= MAX_OFF)
+    // while local extra data is being collected the (unfaulted) sink stays parked at the entry's data start
+    &&& (w.writing_to_extra_field && !w.writing_to_central_extra_field_only && gzw_plain(w.inner) && !gzw_plain_sink(w.inner).g_fault()
+            ==> w.files@.last().data_start.0.g_val() == gzw_plain_sink(w.inner).g_pos())
     &&& (w.writing_to_central_extra_field_only ==> w.writing_to_extra_field)
-    &&& (gzw_plain(w.inner) ==> dev_ok(&gzw_plain_sink(w.inner)))
-    &&& (w.inner matches GenericZipWriter::Storer(MaybeEncrypted::Encrypted(z)) ==> z.buffer@.len() >= 12 && dev_ok(&z.writer) && w.files@.len() > 0)
+    &&& (!(w.inner is Closed) ==> maybe_ok(gzw_sink(w.inner)))
+    &&& (w.inner matches GenericZipWriter::Storer(MaybeEncrypted::Encrypted(_)) ==> w.files@.len() > 0)
+}
+// Only relevant after a device fault inside end_extra_data: the recorded data start still has room for one more
+// extra field.  Without a fault it follows from zw_wf (data start == sink position <= 2^63).  After such a fault
+// every failed retry may add up to 65535, so 2^47 retries would be needed to exhaust it: stated, not proved.
+pub open spec fn zw_room<W: Write + io::Seek>(w: &ZipWriter<W>) -> bool {
+    w.writing_to_extra_field && w.files@.len() > 0 ==> w.files@.last().data_start.0.g_val() <= 0xFFFF_FFFF_FFFF_0000
 }
 
 //@impl src/write.rs | impl<W: Write + io::Seek> ZipWriter<W>
